@@ -25,6 +25,7 @@ RULE = (
     'build attempt rejected and invokes nothing. Non-trivial: failing node is not the root '
     'and is shared or inside a container; or an exotic family; or >=2 failures in sequence.'
 )
+RULE += (' ' + 'Round 3: the failing callable modifies its list/dict argument before raising.')
 ASSUMPTIONS = [
     'exceptions whose own __str__ raises are outside the contract',
     'the Fiddle context (path) is required for exception classes whose proxy subclass can be '
